@@ -1,10 +1,11 @@
 #!/usr/bin/env python3
-"""mutcheck.py <patch> <prop> [<prop>...]: applies a patch to /repo, runs the quick checks of the
-given properties in parallel, reverts the patch, prints one line per property (exit code, verdict).
-Never leaves /repo modified.  Used for the self-validation corpus (mutants/, seeded/)."""
+"""mutcheck.py <patch> <prop> [<prop>...]: applies a patch to a private scratch worktree of /repo (never to
+/repo itself), runs the quick checks of the given properties against it in parallel (VERIF_REPO), removes the
+worktree, prints one line per property.  Used for the self-validation corpus (mutants/, seeded/)."""
 import os
 import subprocess
 import sys
+import tempfile
 
 VERIF = os.path.dirname(os.path.dirname(os.path.abspath(__file__)))
 
@@ -12,27 +13,30 @@ VERIF = os.path.dirname(os.path.dirname(os.path.abspath(__file__)))
 def main():
     patch = os.path.abspath(sys.argv[1])
     props = sys.argv[2:]
-    st = subprocess.run(["git", "-C", "/repo", "status", "--porcelain"], capture_output=True, text=True).stdout.strip()
-    if st:
-        print("refusing: /repo is not clean:\n" + st)
-        sys.exit(2)
-    r = subprocess.run(["git", "-C", "/repo", "apply", patch], capture_output=True, text=True)
+    wt = tempfile.mkdtemp(prefix="verif-mut-")
+    os.rmdir(wt)
+    r = subprocess.run(["git", "-C", "/repo", "worktree", "add", "-q", "--detach", wt, "HEAD"], capture_output=True, text=True)
     if r.returncode != 0:
-        print("patch does not apply:", r.stderr)
+        print("cannot create worktree:", r.stderr)
         sys.exit(2)
     try:
+        r = subprocess.run(["git", "-C", wt, "apply", patch], capture_output=True, text=True)
+        if r.returncode != 0:
+            print("patch does not apply:", r.stderr)
+            sys.exit(2)
+        env = dict(os.environ)
+        env["VERIF_REPO"] = wt
         procs = {}
         for p in props:
             procs[p] = subprocess.Popen([os.path.join(VERIF, "check"), p, "--tier", os.environ.get("VERIF_TIER", "quick")],
-                                        cwd=VERIF, stdout=subprocess.PIPE, stderr=subprocess.DEVNULL, text=True)
+                                        cwd=VERIF, stdout=subprocess.PIPE, stderr=subprocess.DEVNULL, text=True, env=env)
         for p, pr in procs.items():
             out, _ = pr.communicate()
             lines = [l for l in out.splitlines() if l.startswith(("VIOLATION", "OK", "INCONCLUSIVE", "KNOWN"))]
             detail = [l for l in out.splitlines() if l.startswith("  clauses")][:1]
             print("%s exit=%d %s %s" % (p, pr.returncode, " | ".join(l[:160] for l in lines), (detail[0][:200] if detail else "")))
     finally:
-        subprocess.run(["git", "-C", "/repo", "checkout", "--", "."])
-        subprocess.run(["git", "-C", "/repo", "clean", "-fdq"])
+        subprocess.run(["git", "-C", "/repo", "worktree", "remove", "--force", wt])
 
 
 if __name__ == "__main__":
